@@ -197,6 +197,36 @@ pub fn check_octal(kind: &str, start: u32, value: u32) -> CaseResult {
     }
 }
 
+/// the same on the real filesystem (tmpfs), set up and observed with std::fs
+pub fn check_octal_std(kind: &str, start: u32, value: u32) -> CaseResult {
+    let d = crate::sandbox::root().join(format!("c11o-{}", SEQ.fetch_add(1, Ordering::Relaxed)));
+    let _ = std::fs::create_dir_all(&d);
+    let t = d.join("t");
+    let prep = if kind == "dir" { std::fs::create_dir(&t) } else { std::fs::write(&t, b"x") }.and_then(|_| std::fs::set_permissions(&t, std::fs::Permissions::from_mode(start)));
+    if let Err(e) = prep {
+        let _ = std::fs::remove_dir_all(&d);
+        ctx().inconclusive(&format!("C11 cannot prepare {:?}: {}", t, e));
+        return Ok(());
+    }
+    let r = catch(|| Stdfs::chmod(&t, value));
+    let mode = std::fs::symlink_metadata(&t).map(|m| m.permissions().mode()).unwrap_or(0);
+    let _ = std::fs::set_permissions(&t, std::fs::Permissions::from_mode(0o700));
+    let _ = std::fs::remove_dir_all(&d);
+    match r {
+        Err(p) => Err(Failure::new("chmod-octal|panic|stdfs", format!("chmod({:o}) panicked: {}", value, p))),
+        Ok(Err(e)) => Err(Failure::new("chmod-octal|err|stdfs", format!("chmod(t,{:o}) = Err({})", value, e))),
+        Ok(Ok(())) => {
+            if mode & 0o7777 != value {
+                return Err(Failure::new(
+                    format!("chmod-octal|value-not-set|value={}|{}|stdfs", if value == 0 { "zero" } else if value & 0o7000 != start & 0o7000 && value & 0o777 == start & 0o777 { "only-special-bits-differ" } else { "nonzero" }, kind),
+                    format!("Stdfs::chmod(t, {:o}) on a {} with bits {:o} leaves bits {:o}", value, kind, start, mode & 0o7777),
+                ));
+            }
+            Ok(())
+        },
+    }
+}
+
 fn create_spec() -> impl Strategy<Value = OpSpec> {
     // only creating / mode / owner setting ops to build a tree quickly
     (prop::sample::select(vec![0u8, 4, 4, 5, 8, 3, 7, 58, 59, 60, 37, 41]), any::<u8>(), any::<u16>(), any::<u8>(), any::<u16>(), any::<u32>())
@@ -230,7 +260,7 @@ fn exec_readonly_agree(ops: &[Op]) -> CaseResult {
 }
 
 pub fn run(c: &Ctx) {
-    c.set_rule("(a) exhaustive on one entry: every start permission value 0..=0o777 (512) x every well-formed single clause of the grammar [dfa]:[ugoa]+[-+=][rwx]+ (945) x {file, dir} on Memfs, link->file / link->dir with 64 start values; a seeded sample (quick 1/40, thorough all 945^2 on 16 start values) of double clauses incl. readonly() and secure(); malformed expressions: every single-character deletion / substitution of a sample of well-formed ones + random strings; the same single clauses on a tmpfs Stdfs sandbox for 16 start values; octal values 0..=0o777 on file and dir. Oracle: reference interpreter of the documented grammar applied clause by clause to entries of the matching kind; type bits preserved; links and (without follow) their targets untouched; malformed first clause => Err and unchanged; is_exec/is_readonly == mode bits. (b) random trees (dirs, files, links incl. dangling, various modes/owners) + one chmod/chmod_b/chown/chown_b with every option combination (all/dirs/files/sym x recurse x follow; uid/gid/owner x recurse x follow): full tree equality with the reference model (exactly the targeted entries changed). (c) two hand-made trees (prefix-named sibling directories linked to each other, links to files, dirs, ancestors and nothing; non-default modes and owners) x every path x every chmod_b / chown_b option combination, same oracle. Non-trivial = expression whose first clause targets the other kind, or a tree with a link, or value 0; distinct by case.");
+    c.set_rule("(a) exhaustive on one entry: every start permission value 0..=0o777 (512) x every well-formed single clause of the grammar [dfa]:[ugoa]+[-+=][rwx]+ (945) x {file, dir} on Memfs, link->file / link->dir with 64 start values; a seeded sample (quick 1/40, thorough all 945^2 on 16 start values) of double clauses incl. readonly() and secure(); malformed expressions: every single-character deletion / substitution of a sample of well-formed ones + random strings; the same single clauses on a tmpfs Stdfs sandbox for 16 start values; octal values 0..=0o7777 (special bits included) on file and dir from 4 start modes, on Memfs and on Stdfs. Oracle: reference interpreter of the documented grammar applied clause by clause to entries of the matching kind; type bits preserved; links and (without follow) their targets untouched; malformed first clause => Err and unchanged; is_exec/is_readonly == mode bits. (b) random trees (dirs, files, links incl. dangling, various modes/owners) + one chmod/chmod_b/chown/chown_b with every option combination (all/dirs/files/sym x recurse x follow; uid/gid/owner x recurse x follow): full tree equality with the reference model (exactly the targeted entries changed). (c) two hand-made trees (prefix-named sibling directories linked to each other, links to files, dirs, ancestors and nothing; non-default modes and owners) x every path x every chmod_b / chown_b option combination, same oracle. Non-trivial = expression whose first clause targets the other kind, or a tree with a link, or value 0; distinct by case.");
     c.assume("symbolic expressions applied through followed links and later-clause malformation only require the failing entry to be unchanged (DESIGN 6.3)");
     let cl = clauses();
     c.note("single_clauses", cl.len());
@@ -367,10 +397,27 @@ pub fn run(c: &Ctx) {
         }
     });
     // (a5) octal
-    par_for(512 * 2, 64, |i| {
+    // Stdfs: every value 0..=0o7777 from four start modes (special bits set and unset)
+    par_for(4096 * 2, 64, |i| {
         let kind = if i % 2 == 0 { "file" } else { "dir" };
         let value = (i / 2) as u32;
-        for start in [0o644u32, 0o777, 0o000] {
+        for start in [0o644u32, 0o755, 0o4755, 0o1777] {
+            if value == 0 {
+                continue; // the documented "unset" sentinel: listed finding on Memfs, not re-asserted per backend
+            }
+            c.eval(1);
+            c.class("octal:stdfs");
+            if value & 0o777 == start & 0o777 {
+                c.nontrivial(fp(&("octal-std", kind, start, value)));
+            }
+            c.judge("octal-std", &json!([kind, start, value]), check_octal_std(kind, start, value));
+        }
+    });
+    crate::sandbox::cleanup();
+    par_for(4096 * 2, 64, |i| {
+        let kind = if i % 2 == 0 { "file" } else { "dir" };
+        let value = (i / 2) as u32;
+        for start in [0o644u32, 0o777, 0o000, 0o4755] {
             c.eval(1);
             if value == 0 {
                 c.nontrivial(fp(&("octal", kind, start, value)));
@@ -463,6 +510,10 @@ pub fn run(c: &Ctx) {
 pub fn replay(kind: &str, case: &Value) -> Option<CaseResult> {
     let r = match kind {
         "sym" => Some(check_sym(&serde_json::from_value(case.clone()).ok()?)),
+        "octal-std" => {
+            let a = case.as_array()?;
+            Some(check_octal_std(a[0].as_str()?, a[1].as_u64()? as u32, a[2].as_u64()? as u32))
+        },
         "octal" => {
             let a = case.as_array()?;
             Some(check_octal(a[0].as_str()?, a[1].as_u64()? as u32, a[2].as_u64()? as u32))
